@@ -166,6 +166,7 @@ type joeSub struct {
 	idDesc  string
 
 	ctx       context.Context
+	base      context.Context
 	cancel    context.CancelFunc
 	startAt   int
 	invoked   int
@@ -380,6 +381,14 @@ func (w *joeWorld) generate() {
 		s.sub = &simSub{ID: i}
 		s.topics = genTopics(ch, "sub")
 		base, cancel := context.WithCancel(context.Background())
+		if i > 0 && ch.Chance(1, 6, "shares the previous subscriber's context") {
+			// one request context behind several subscriptions: a single cancellation
+			// produces several unsubscriptions at once
+			prev := w.subs[i-1]
+			base, cancel = prev.base, prev.cancel
+			w.o.probe("two subscribers share one context")
+		}
+		s.base = base
 		s.cancel = cancel
 		s.ctx = &loggedCtx{Context: base, onDone: func() {
 			if s.firstDone == 0 {
@@ -490,8 +499,11 @@ func (w *joeWorld) onSubCall(s *joeSub) func(*simSub, bool, *sse.Message, error)
 			}
 			if s.selfCancel {
 				w.o.fault("failing call cancels its own context")
-				if s.cancelReq == 0 {
-					s.cancelReq = w.tick()
+				req := w.tick()
+				for _, o := range w.subs {
+					if o.base == s.base && o.cancelReq == 0 {
+						o.cancelReq = req
+					}
 				}
 				s.cancel()
 			}
@@ -560,8 +572,11 @@ func (w *joeWorld) spawnAll() {
 			} else if c.startAt > 0 {
 				sim.WaitWeak("cancel waits for publishes", func() bool { return w.pubsReturned >= c.startAt })
 			}
-			if c.sub.cancelReq == 0 {
-				c.sub.cancelReq = w.tick()
+			req := w.tick()
+			for _, o := range w.subs {
+				if o.base == c.sub.base && o.cancelReq == 0 {
+					o.cancelReq = req
+				}
 			}
 			sim.Logf("cancel", "sub%d", c.sub.id)
 			w.o.fault("context cancellation")
